@@ -446,4 +446,38 @@ def N22():  # a tag that points at another tag: a no-option run turns it into a 
         shutil.rmtree(root, ignore_errors=True)
 
 
+def N23():  # repository under a directory whose name is not valid UTF-8: the importer's marks went to a lossily spelled directory
+    root = tempfile.mkdtemp(prefix='frrs-wit-')
+    try:
+        parent = os.path.join(root, 'caf\udce9'); os.makedirs(parent)
+        repo = os.path.join(parent, 'r')
+        subprocess.run(['git', 'init', '-q', '-b', 'main', repo], check=True, env=e2e.GIT_ENV)
+        sh(repo, 'git config user.name T; git config user.email t@e')
+        commit(repo, {'a': 'a', 'b': 'b'}, 'one'); commit(repo, {'a': 'ab'}, 'two')
+        rc, _, _ = tool(repo, '--force', '--path', 'a')
+        cm = os.path.join(repo, '.git/filter-repo/commit-map')
+        lines = [l for l in open(cm).read().splitlines() if l and not l.startswith('old')] if os.path.exists(cm) else []
+        return rc != 0 or len(lines) != 2 or len(os.listdir(root)) != 1
+    finally:
+        shutil.rmtree(root, ignore_errors=True)
+
+
+def N24():  # the exporter writes a complete stream and then exits non-zero: the run failed, yet the importer finished and moved refs
+    root = tempfile.mkdtemp(prefix='frrs-wit-')
+    try:
+        repo = os.path.join(root, 'repo')
+        subprocess.run(['git', 'init', '-q', repo], check=True, env=e2e.GIT_ENV, stdout=subprocess.DEVNULL)
+        e2e.git(repo, 'config', 'user.name', 'T'); e2e.git(repo, 'config', 'user.email', 't@e')
+        e2e.git(repo, 'fast-import', '--quiet', input=e2e.sized_stream(40, 30, 1, 3))
+        e2e.git(repo, 'symbolic-ref', 'HEAD', 'refs/heads/b0'); e2e.git(repo, 'reset', '-q', '--hard')
+        total = len(e2e.export(repo))
+        env = e2e.perturbed_env(root, 0, 'cutexport'); env['FRRS_SHIM_CUT'] = str(total + 1000); env['FRRS_SHIM_RC'] = '1'
+        before = e2e.refs(repo)
+        p = subprocess.run([e2e.FR, '--force', '--path-rename', 'd2/:moved/'], cwd=repo, stdout=subprocess.PIPE, stderr=subprocess.PIPE, env=env, timeout=120)
+        import time; time.sleep(1.0)          # an importer left running would finish about now
+        return p.returncode == 0 or e2e.refs(repo) != before
+    finally:
+        shutil.rmtree(root, ignore_errors=True)
+
+
 RECIPES = {k: v for k, v in list(globals().items()) if callable(v) and k[0] in 'FNR' and k[1:].isdigit()}
